@@ -307,8 +307,16 @@ class ObjectWriter:
                 # we have a weakref, see weakref.py
 
                 oid = obj.oid
+                target = getattr(obj, '_v_ob', None)
+                if (oid is not None and target is not None
+                        and target._p_oid != oid):
+                    # The target is at hand and no longer has the oid we
+                    # remember: it was un-added (a savepoint rollback, an
+                    # abort) and maybe added again under another oid.
+                    oid = None
                 if oid is None:
-                    target = obj()  # get the referenced object
+                    if target is None:
+                        target = obj()  # get the referenced object
                     oid = target._p_oid
                     if oid is None:
                         # Here we are causing the object to be saved in
